@@ -114,6 +114,7 @@ func (dp *DPoVP) MineBlock(txProcessTimeout int64) (*types.Block, error) {
 
 	dp.chainLock.Lock()
 	defer dp.chainLock.Unlock()
+	defer verifTrace(dp, "MineBlock", nil, 0, common.Hash{}, nil)
 	parentHeader := dp.CurrentBlock().Header
 	log.Debug("🔨 Start mine block", "height", parentHeader.Height+1)
 	// mine and seal
@@ -158,6 +159,7 @@ func (dp *DPoVP) InsertBlock(rawBlock *types.Block) (*types.Block, error) {
 
 	dp.chainLock.Lock()
 	defer dp.chainLock.Unlock()
+	defer verifTrace(dp, "InsertBlock", rawBlock, rawBlock.Height(), rawBlock.Hash(), rawBlock.Confirms)
 	log.Debug("🎁 Start insert block to chain", "block", rawBlock.ShortString(), "parent", rawBlock.ParentHash())
 
 	// verify and create a new block witch filled by transaction products
@@ -418,6 +420,7 @@ func (dp *DPoVP) VerifyAndSeal(block *types.Block) (*types.Block, error) {
 func (dp *DPoVP) InsertConfirms(height uint32, blockHash common.Hash, sigList []types.SignData) error {
 	dp.chainLock.Lock()
 	defer dp.chainLock.Unlock()
+	defer verifTrace(dp, "InsertConfirms", nil, height, blockHash, sigList)
 	oldCurrent := dp.CurrentBlock()
 	log.Debug("👍 Start insert confirms", "height", height, "hash", blockHash.Hex()[:16], "sigCount", len(sigList))
 
